@@ -200,7 +200,7 @@ func (e *Enc) callCommon(c *ssa.CallCommon, site ssa.Instruction, st *State, def
 		na := e.declare(e.freshName("al_call"), "Int")
 		e.assume("(>= " + na + " " + st.alloc + ")")
 		st.alloc = na
-		if e.ctr != nil && e.ctr.HasMod && !e.ctr.ModAll && (ws.all || len(ws.roots) > 0) {
+		if e.ctr != nil && e.ctr.HasMod && !e.ctr.ModAll && e.ctr.Opts["frame"] != "assume" && (ws.all || len(ws.roots) > 0) {
 			e.oblige("frame", "", "false", pos, "call to "+ShortKey(key)+" without contract inside a function with a modifies clause")
 		}
 	}
@@ -452,14 +452,14 @@ type designator struct {
 // ---------- frame checking (functions that declare modifies) ----------
 
 func (e *Enc) frameCheckStore(addr *Val, ins *ssa.Store, st *State) {
-	if e.ctr == nil || !e.ctr.HasMod || e.ctr.ModAll || e.ctr.Extern {
+	if e.ctr == nil || !e.ctr.HasMod || e.ctr.ModAll || e.ctr.Extern || e.ctr.Opts["frame"] == "assume" {
 		return
 	}
 	e.frameCheckRef(addr, ins.Val.Type(), ins.Pos(), st)
 }
 
 func (e *Enc) frameCheckRoot(root string, ref string, pos token.Pos, st *State) {
-	if e.ctr == nil || !e.ctr.HasMod || e.ctr.ModAll || e.ctr.Extern {
+	if e.ctr == nil || !e.ctr.HasMod || e.ctr.ModAll || e.ctr.Extern || e.ctr.Opts["frame"] == "assume" {
 		return
 	}
 	allowed := []string{"(> " + ref + " alloc0)"}
@@ -565,7 +565,7 @@ func (e *Enc) frameCheckRef(addr *Val, T types.Type, pos token.Pos, st *State) {
 // location allowed for this function (checked through the same machinery by
 // evaluating the designator to locations).
 func (e *Enc) frameCheckCall(callee *Contract, env map[string]envEntry, old *State, pos token.Pos) {
-	if e.ctr == nil || !e.ctr.HasMod || e.ctr.ModAll || e.ctr.Extern {
+	if e.ctr == nil || !e.ctr.HasMod || e.ctr.ModAll || e.ctr.Extern || e.ctr.Opts["frame"] == "assume" {
 		return
 	}
 	for _, m := range callee.Modifies {
